@@ -38,4 +38,48 @@ theorem do_regex (r : RW) (x : RegexpI) (buf : Bytes) (hre : r.re = some x) (hnr
 theorem do_notRe_precedence (r : RW) (x : RegexpI) (buf : Bytes) (hx : r.notRe = some x) (hm : x.Match buf = false)
     (hre : r.re = none) : r.Do buf = Lib.bytes_Replace buf r.old r.new r.Max := by
   unfold RW.Do; simp [hx, Lib.notNil, Option.Match, hm, hre]
+/-! ### rewriter.New -/
+/-- `/…/`: longer than one byte, first and last byte a slash -/
+def isSlashed (b : Bytes) : Bool :=
+  decide (Lib.len b > 1) && (Lib.slice b 0 1 == [47]) && (Lib.sliceFrom b (Lib.len b - 1) == [47])
+def inner (b : Bytes) : Bytes := Lib.slice b 1 (Lib.len b - 1)
+
+/-- **rewriter.New (regenerated), closed form**: empty `old` and `max < -1` are rejected; `old` is a regex rule exactly when
+it is `/…/` (then the text between the slashes must compile and `max` must be -1), otherwise a literal rule; the same test
+decides whether the not-clause is a regex or a substring; the accepted rule carries its arguments unchanged -/
+theorem new_eq (E : Env) (old new not : Bytes) (max : Int) :
+    rewriter_New E old new not max =
+      if Lib.len old == 0 then (default, errEmptyOld)
+      else if max < -1 then (default, errMaxTooLow)
+      else if isSlashed old && (E.regexp_Compile (inner old)).2.isSome then (default, errInvalidRegexp)
+      else if isSlashed old && max != -1 then (default, errInvalidRegexpMax)
+      else if isSlashed not && (E.regexp_Compile (inner not)).2.isSome then (default, errInvalidNotRegexp)
+      else ({ Old := old, New := new, Not := not, Max := max, old := old, new := new, not := not,
+              re := if isSlashed old then (E.regexp_Compile (inner old)).1 else none,
+              notRe := if isSlashed not then (E.regexp_Compile (inner not)).1 else none }, none) := by
+  have e1 : (decide (Lib.len old > 1) && (Lib.slice old 0 1 == [47]) && (Lib.sliceFrom old (Lib.len old - 1) == [47])) = isSlashed old := rfl
+  have e2 : (decide (Lib.len not > 1) && (Lib.slice not 0 1 == [47]) && (Lib.sliceFrom not (Lib.len not - 1) == [47])) = isSlashed not := rfl
+  rcases hc : E.regexp_Compile (Lib.slice old 1 (Lib.len old - 1)) with ⟨r1, e1'⟩
+  rcases hd : E.regexp_Compile (Lib.slice not 1 (Lib.len not - 1)) with ⟨r2, e2'⟩
+  unfold rewriter_New
+  simp only [e1, e2, inner, hc, hd, Lib.notNil]
+  by_cases h0 : (Lib.len old == 0) = true
+  · simp [h0]
+  · by_cases h1 : max < -1
+    · simp [h0, h1]
+    · cases ho : isSlashed old <;> cases hn : isSlashed not <;>
+        cases e1' <;> cases e2' <;> by_cases hm : max = -1 <;> simp [h0, h1, hm] <;> rfl
+
+/-- a literal rule that `New` accepted rewrites like the model's `rwDo` (C04), with `max = -1` meaning all -/
+theorem new_then_do_literal (E : Env) (old new not : Bytes) (max : Int) (buf : Bytes)
+    (hacc : (rewriter_New E old new not max).2 = none) (ho : isSlashed old = false) (hn : isSlashed not = false) :
+    (rewriter_New E old new not max).1.Do buf = Crng.Rw.rwDo old new not (if max < 0 then none else some max.toNat) buf := by
+  rw [new_eq] at hacc ⊢
+  by_cases h0 : (Lib.len old == 0) = true
+  · simp [h0, errEmptyOld] at hacc
+  · by_cases h1 : max < -1
+    · simp [h0, h1, errMaxTooLow] at hacc
+    · simp only [h0, h1, ho, hn, Bool.false_and, Bool.false_eq_true, if_false]
+      exact do_literal_eq _ buf rfl rfl
+
 end Crng.Tie.CodeRewriter
